@@ -132,8 +132,17 @@ pub open spec fn last_polled(s: Seq<Effect>) -> Port { match s.last() { Effect::
 
 #[verifier::external_body]
 pub fn vx_pin<T>(t: T) -> (r: T) ensures r == t { unimplemented!() }
-impl SupervisionRx { #[verifier::external_body] pub fn recv(&mut self) -> SupRecv { unimplemented!() } }
-impl MessageRx { #[verifier::external_body] pub fn recv(&mut self) -> MsgRecv { unimplemented!() } }
+impl SupervisionRx {
+    #[verifier::external_body] pub fn recv(&mut self) -> SupRecv { unimplemented!() }
+    #[verifier::external_body] pub fn len(&self) -> usize { unimplemented!() }
+    #[verifier::external_body] pub fn is_empty(&self) -> bool { unimplemented!() }
+}
+impl MessageRx {
+    #[verifier::external_body] pub fn recv(&mut self) -> MsgRecv { unimplemented!() }
+    /// how many items sit in the queue right now (says nothing about admitted senders that have not enqueued yet)
+    #[verifier::external_body] pub fn len(&self) -> usize { unimplemented!() }
+    #[verifier::external_body] pub fn is_empty(&self) -> bool { unimplemented!() }
+}
 #[verifier::external_body] pub struct TryRecvError { _p: u8 }
 impl<T> CbFut<T> {
     /// `Pin::as_mut`: the same future, reborrowed
@@ -283,6 +292,9 @@ impl<M> ActorRef<M> {
     pub fn clone(&self) -> ActorRef<M> { unimplemented!() }
     #[verus_verify(external_body)]
     pub fn get_cell(&self) -> ActorCell { unimplemented!() }
+    /// reading the published status has no effect (and tells nothing about what is still in flight towards the mailbox)
+    #[verus_verify(external_body)]
+    pub fn get_status(&self) -> ActorStatus { unimplemented!() }
     #[verus_verify(external_body)]
     #[verus_spec(r =>
         with Tracked(log): Tracked<&mut EffectLog>
